@@ -264,6 +264,22 @@ def _chunks_case(j, Constraints, y, rng):
     ch2 = Constraints(y).chunks(n_chunks=n_chunks, chunk_size=chunk_size,
                                 random_state=seed)
   j.check('C07.chunks.reproducible', np.array_equal(ch, ch2), det)
+  # ... also when one helper object is asked several times (the constraints
+  # are a function of the labels, the parameters and the seed, not of what
+  # the object was asked before)
+  with Quiet():
+    try:
+      cobj = Constraints(y)
+      cobj.chunks(n_chunks=n_chunks, chunk_size=chunk_size,
+                  random_state=seed + 1)
+      ch3 = cobj.chunks(n_chunks=n_chunks, chunk_size=chunk_size,
+                        random_state=seed)
+      j.check('C07.chunks.reproducible', np.array_equal(ch, ch3),
+              dict(det, why='second request to the same Constraints object'))
+    except Exception as e:
+      j.violated('C07.chunks.reproducible',
+                 dict(det, why='second request to the same Constraints '
+                      'object raised', raised=repr(e)[:200]))
   j.distinct('chunks', y.tobytes(), n_chunks, chunk_size, seed)
 
 
